@@ -13,7 +13,17 @@ EXPLANATION = (
     "schedules interrupts like an uninterrupted one; (5) the T-state codecs keep the frame position (shared with C09) and the 0x7FFD latch is "
     "recorded exactly when paging happens (shared with C08). Not decided: equality of final states for all programs and split points.")
 
+class _Model:
+    _sa_fold_ok = True
+    _sa_model = True
+    def __init__(self, **kw):
+        self.__dict__.update(kw)
+
 def get_state_facts(repo):
+    """What simutils.get_state exports, read off by folding it on a model simulator whose register slots and hardware attributes hold
+    distinct marker values (48K: memory is a list; 128K: a pagingtracer.Memory): key -> (None, register slots read, attributes read, line,
+    exported without loss).  Independent of how get_state is written."""
+    from sa.core.classfold import ClassFolder, Inst
     su = repo.mod('simutils')
     gs = su.func('get_state')
     consts = {}
@@ -21,42 +31,65 @@ def get_state_facts(repo):
         v = vals[-1]
         if isinstance(v, ast.Constant) and isinstance(v.value, int) and not isinstance(v.value, bool):
             consts[name] = v.value
-    exported = {}      # key -> (expr node, slots read, tracer attrs read)
-    for n in ast.walk(gs):
-        if isinstance(n, ast.JoinedStr):
-            text = ''
-            exprs = []
-            for v in n.values:
-                if isinstance(v, ast.Constant):
-                    text += v.value
-                else:
-                    text += '{}'
-                    exprs.append(v.value)
-            if '=' not in text:
-                continue
-            key = text.split('=')[0]
-            slots = []
-            attrs = []
-            for x in ast.walk(exprs[-1]):
-                if isinstance(x, ast.Subscript) and ast.unparse(x.value).endswith('registers'):
-                    try:
-                        slots.append(Lit(repo, 'simutils').ev(x.slice))
-                    except NotLiteral:
-                        pass
-                if isinstance(x, ast.Attribute) and ast.unparse(x.value) in ('simulator.tracer', 'simulator.memory'):
-                    attrs.append(x.attr)
-            exported[key] = (exprs[-1], slots, attrs, n.lineno)
-    # border goes through a local
-    for n in ast.walk(gs):
-        if isinstance(n, ast.Assign) and ast.unparse(n.value) == 'simulator.tracer.border':
-            if 'border' in exported:
-                exported['border'][2].append('border')
-    # ay: enumerate(simulator.tracer.ay)
-    for n in ast.walk(gs):
-        if isinstance(n, ast.GeneratorExp) and 'simulator.tracer.ay' in ast.unparse(n):
-            for k in exported:
-                if k.startswith('ay['):
-                    exported[k][2].append('ay')
+    cf = ClassFolder(repo, 'simutils')
+    BIG = 100000
+    def run(regs, tr, mem):
+        r = cf.call_func('simutils', 'get_state', [_Model(registers=regs, tracer=tr, memory=mem)])
+        out = {}
+        for item in list(r[1]) + list(r[2]):
+            k, _, v = str(item).partition('=')
+            out[k] = int(v)
+        return out
+    def memory128():
+        m = Inst('pagingtracer', 'Memory', cf.sibling('pagingtracer'))
+        m.banks = [[b] * 4 for b in range(8)]
+        m.o7ffd = 0x17
+        m.machine = '128K'
+        return m
+    regs = [3 + k for k in range(30)]
+    wide = [k for k in range(30) if k in (consts.get('SP'), consts.get('PC'), consts.get('T'), consts.get('MEMPTR'))]
+    for k in wide:
+        regs[k] = BIG + k
+    attrs = {'border': 5, 'outfe': 0x9A, 'outfffd': 0x0B}
+    ay = [0xA0 + k for k in range(16)]
+    try:
+        got = run(list(regs), _Model(ay=list(ay), **attrs), memory128())
+        got48 = run(list(regs), _Model(ay=list(ay), **attrs), [0] * 65536)
+        got_list_border = run(list(regs), _Model(ay=list(ay), border=[(0, 1), (9, 0xFE)], outfe=0x9A, outfffd=0x0B), [0] * 65536)
+        big = [255] * 30
+        for k in wide:
+            big[k] = 2 ** 40 + 12345 + k
+        got_big = run(big, _Model(ay=[255] * 16, border=7, outfe=255, outfffd=255), memory128())
+    except NotLiteral as e:
+        raise FactError('skoolkit/simutils.py: get_state is not foldable (%s)' % e)
+    exported = {}
+    for key, v in got.items():
+        slots, at = [], []
+        if v >= BIG and v - BIG in wide:
+            slots = [v - BIG]
+        elif key.startswith('ay[') and v in ay:
+            at = ['ay']
+        elif key == '7ffd' and v == 0x17:
+            at = ['o7ffd']
+        else:
+            named = [a for a, x in attrs.items() if x == v]
+            lo, hi = v % 256 - 3, v // 256 - 3
+            if 0 <= v - 3 < 30 and v - 3 not in wide and not (named and key in ('border', 'fe', 'fffd')):
+                slots = [v - 3]
+            elif named:
+                at = named[:1]
+            elif v >= 256 and 0 <= lo < 30 and 0 <= hi < 30:
+                slots = [lo, hi]
+        if key == 'border' and got_list_border.get('border') != (0xFE & 7):
+            at = []
+        want_big = None
+        if slots:
+            want_big = big[slots[0]] if len(slots) == 1 else big[slots[0]] + 256 * big[slots[1]]
+        exact = want_big is None or got_big.get(key) == want_big
+        exported[key] = (None, slots, at, gs.lineno, exact)
+    for key in got48:
+        if key not in exported:
+            exported[key] = (None, [], [], gs.lineno, True)
     return su, gs, consts, exported
 
 def slot_rule(ctx, repo):
@@ -68,7 +101,7 @@ def slot_rule(ctx, repo):
             raise FactError('skoolkit/simutils.py: register index %s not found' % name)
         need[name] = consts[name]
     read = {}
-    for key, (expr, slots, attrs, line) in exported.items():
+    for key, (expr, slots, attrs, line, exact) in exported.items():
         for s in slots:
             read.setdefault(s, key)
     for name, slot in need.items():
@@ -85,11 +118,9 @@ def slot_rule(ctx, repo):
         if key not in exported:
             ctx.violation('pair ' + key, 'skoolkit/simutils.py', 'get_state does not export %s' % key)
             continue
-        expr = exported[key][0]
-        want = '%s+256*%s' % ('simulator.registers[%s]' % lo, 'simulator.registers[%s]' % hi)
         problems = []
-        if ast.unparse(expr).replace(' ', '') != want:
-            problems.append('exported as %s, expected %s' % (ast.unparse(expr), want))
+        if exported[key][1] != [consts[lo], consts[hi]]:
+            problems.append('exported from slots %s (low, high), expected %s' % (exported[key][1], [consts[lo], consts[hi]]))
         # get_registers: rh = REGISTERS[...]; registers[rh] = value // 256; registers[rh + 1] = value % 256  => hi slot + 1 == lo slot
         if consts[hi] + 1 != consts[lo]:
             problems.append('slots of %s/%s are %d/%d; get_registers stores the low byte at high+1' % (hi, lo, consts[hi], consts[lo]))
@@ -113,7 +144,7 @@ def hardware_rule(ctx, repo):
     ctx.rule('C10.2-hardware', 'every hardware attribute updated by a port-write handler is exported by get_state', floor=5)
     su, gs, consts, exported = get_state_facts(repo)
     exp_attrs = set()
-    for key, (expr, slots, attrs, line) in exported.items():
+    for key, (expr, slots, attrs, line, exact) in exported.items():
         exp_attrs.update(attrs)
     pt = repo.mod('pagingtracer')
     found = set()
